@@ -34,6 +34,7 @@ struct Call {
     int flags = 0;
     long result = 0;
     bool mutating = false;
+    std::string data; // bytes passed to write() (captured while logging)
 };
 
 inline bool active = false;          // virtualisation on (clock + mtime + logging)
@@ -46,6 +47,7 @@ inline long mutCount = 0;            // mutating calls seen while armed
 inline bool armed = false;           // count / crash / fail only while armed (the operation under test)
 inline long crashAt = -1;            // _exit(0) BEFORE performing the crashAt-th mutating call (1-based)
 inline long failAt = -1;             // make the failAt-th mutating call fail with failErrno
+inline long failFrom = -1;           // "read-only directory": from the failFrom-th mutating call on, every directory-modifying call fails while armed
 inline int failErrno = EACCES;
 inline bool failed = false;
 inline std::map<ino_t, int64_t> vmtime;
@@ -81,7 +83,7 @@ inline bool existsReal(const char *p, struct stat *out = nullptr)
 }
 
 // returns true if the call must fail (errno set). Crashes do not return.
-inline bool gate(Call &c)
+inline bool gate(Call &c, bool dirOp = true)
 {
     c.mutating = true;
     if (preMutate) preMutate(c);
@@ -92,6 +94,11 @@ inline bool gate(Call &c)
         _exit(0);
     }
     if (failAt > 0 && mutCount == failAt) {
+        failed = true;
+        errno = failErrno;
+        return true;
+    }
+    if (failFrom > 0 && mutCount >= failFrom && dirOp) {
         failed = true;
         errno = failErrno;
         return true;
@@ -142,7 +149,7 @@ static int vdev_open_common(const char *fn, int dirfd, const char *path, int fla
     struct stat st;
     bool existed = vdev::existsReal(path, &st);
     bool mut = ((flags & O_CREAT) && !existed) || ((flags & O_TRUNC) && existed && st.st_size > 0);
-    if (mut && vdev::gate(c)) { c.result = -1; vdev::record(c); return -1; }
+    if (mut && vdev::gate(c, /* dirOp */ !existed)) { c.result = -1; vdev::record(c); return -1; }
     int fd = r_openat64(dirfd, path, flags, mode);
     int e = errno;
     c.result = fd; c.fd = fd;
@@ -188,11 +195,11 @@ ssize_t write(int fd, const void *buf, size_t n)
     auto it = vdev::fdPath.find(fd);
     if (it == vdev::fdPath.end()) return r_write(fd, buf, n);
     vdev::Call c; c.name = "write"; c.path = it->second; c.fd = fd; c.n = (long)n;
-    if (vdev::gate(c)) { c.result = -1; vdev::record(c); return -1; }
+    if (vdev::gate(c, false)) { c.result = -1; vdev::record(c); return -1; }
     ssize_t r = r_write(fd, buf, n);
     int e = errno;
     c.result = r;
-    if (r > 0) vdev::vmtime[vdev::inoOfFd(fd)] = vdev::quantised();
+    if (r > 0) { vdev::vmtime[vdev::inoOfFd(fd)] = vdev::quantised(); if (vdev::logging) c.data.assign((const char *)buf, (size_t)r); }
     vdev::record(c);
     errno = e;
     return r;
@@ -216,7 +223,7 @@ int ftruncate(int fd, off_t len)
     auto it = vdev::fdPath.find(fd);
     if (!vdev::active || it == vdev::fdPath.end()) return r_ftruncate(fd, len);
     vdev::Call c; c.name = "ftruncate"; c.path = it->second; c.fd = fd; c.n = (long)len;
-    if (vdev::gate(c)) { c.result = -1; vdev::record(c); return -1; }
+    if (vdev::gate(c, false)) { c.result = -1; vdev::record(c); return -1; }
     int r = r_ftruncate(fd, len);
     c.result = r; vdev::record(c);
     return r;
